@@ -26,7 +26,7 @@ from pathlib import Path
 VERIF = Path(__file__).resolve().parent.parent
 REPO = Path(os.environ.get("VERIF_REPO", "/repo"))
 SPEC = VERIF / "spec"
-EVID = VERIF / "evidence"
+EVID = Path(os.environ.get("VERIF_EVIDENCE_DIR") or (VERIF / "evidence"))  # redirected when trying mutants
 KNOWN = VERIF / "known_findings.jsonl"
 
 GO_SUM_MOD = """module example.com/w
@@ -376,7 +376,7 @@ class Ctx:
         ev = {"property_id": self.prop, "tier": self.tier, "seed": self.seed, "level": level,
               "coverage": cov, "assumptions": self.assumptions, "wall_s": round(wall, 2),
               "violations": len(self.violations)}
-        EVID.mkdir(exist_ok=True)
+        EVID.mkdir(parents=True, exist_ok=True)
         (EVID / f"{self.prop}.json").write_text(json.dumps(ev, indent=1, default=str) + "\n")
         for k, v in sorted(self.known_hits.items()):
             print(f"KNOWN-FINDING: property={self.prop} {v['f']['what']} [{k}; {v['n']} case(s)]")
@@ -561,7 +561,7 @@ def main(prop, fn):
 
 
 def _fallback_evidence(ctx, msg):
-    EVID.mkdir(exist_ok=True)
+    EVID.mkdir(parents=True, exist_ok=True)
     ev = {"property_id": ctx.prop, "tier": ctx.tier, "seed": ctx.seed, "level": "other",
           "coverage": {"explanation": "check did not complete: " + msg[:500], "evaluations": max(1, ctx.cov["evaluations"]),
                        "distinct_nontrivial": 0},
